@@ -1,0 +1,51 @@
+//go:build verif
+
+// Contracts for netlink.go (C18), read by the verifier in /verif (build tag
+// verif). Comments only; no code is added to the package.
+//
+// Trace entries (ghost envlog): arguments are recorded leaf by leaf from index
+// 0, results from index 16; envbyte/envle16/envle32(i, k) read the first []byte
+// argument of entry i as it was when the call was made.
+//   syscall.Sendto(fd, p, flags, to) err : fd@0, p=(ref@1,off@2,len@3,cap@4), flags@5; err@16
+//   syscall.Recvfrom(fd, p, flags) (n, from, err): n@16, from=(type@17,ptr@18), err@19
+
+package libaudit
+
+//@ layout[C18] . syscall.NlMsghdr nlmsghdr
+//@ consts[C18,C08] . AuditMessageMaxLength=limits.AUDIT_MESSAGE_MAX_LENGTH
+
+//@ func libaudit.serialize
+//@ requires len(msg.Data) < 4294967280 -- 16 + len(Data) must fit the 32-bit length word (the property's range is 0..8970)
+//@ modifies alloc
+//@ ensures[C18] len(result0) == 16 + len(msg.Data)
+//@ ensures[C18] le32(result0, 0) == 16 + len(msg.Data) && le16(result0, 4) == msg.Header.Type && le16(result0, 6) == msg.Header.Flags
+//@ ensures[C18] le32(result0, 8) == msg.Header.Seq && le32(result0, 12) == msg.Header.Pid
+//@ ensures[C18] forall i int :: 0 <= i && i < len(msg.Data) ==> result0[16 + i] == msg.Data[i]
+
+//@ func (*libaudit.NetlinkClient).Send
+//@ requires len(msg.Data) < 4294967280
+//@ modifies c.seq, alloc, envlog
+//@ ensures[C18] envlen() == old(envlen()) + 1 && envkind(old(envlen())) == envkindOf(syscall.Sendto)
+//@ ensures[C18] result0 == (old(c.seq) + 1) mod 4294967296 && c.seq == result0
+//@ ensures[C18] envarg(old(envlen()), 0) == c.fd && envarg(old(envlen()), 5) == 0 && envarg(old(envlen()), 3) == 16 + len(msg.Data)
+//@ ensures[C18] envle32(old(envlen()), 0) == 16 + len(msg.Data) && envle16(old(envlen()), 4) == msg.Header.Type && envle16(old(envlen()), 6) == msg.Header.Flags
+//@ ensures[C18] envle32(old(envlen()), 8) == result0 && envle32(old(envlen()), 12) == (if msg.Header.Pid != 0 then msg.Header.Pid else c.pid)
+//@ ensures[C18] forall i int :: 0 <= i && i < len(msg.Data) ==> envbyte(old(envlen()), 16 + i) == msg.Data[i]
+//@ ensures[C18] isNil(result1) == (envarg(old(envlen()), 16) == 0)
+
+//@ func (*libaudit.NetlinkClient).Receive
+//@ requires !isNil(p)
+//@ modifies elemsOf(byte), alloc, envlog
+//@ ensures[C18] envlen() >= old(envlen()) + 1 && envkind(old(envlen())) == envkindOf(syscall.Recvfrom)
+//@ ensures[C18] !isNil(result1) ==> len(result0) == 0
+//@ ensures[C18] isNil(result1) ==> envarg(old(envlen()), 19) == 0 && envarg(old(envlen()), 16) >= 16 && envarg(old(envlen()), 16) <= len(c.readBuf)
+//@ ensures[C18] isNil(result1) ==> envarg(old(envlen()), 17) == tidOf(*syscall.SockaddrNetlink) && ptr(syscall.SockaddrNetlink, envarg(old(envlen()), 18)).Pid == 0
+//@ ensures[C18] isNil(result1) ==> envkind(envlen() - 1) == envkindOf(funcvalue.NetlinkParser) && envarg(envlen() - 1, 0) == base(c.readBuf) && envarg(envlen() - 1, 1) == lo(c.readBuf) && envarg(envlen() - 1, 2) == envarg(old(envlen()), 16)
+//@ ensures[C18] isNil(result1) ==> base(result0) == envarg(envlen() - 1, 16) && len(result0) == envarg(envlen() - 1, 18)
+
+//@ func libaudit.parseNetlinkAuditMessage
+//@ modifies alloc
+//@ ensures[C18] len(buf) < 16 ==> result1 != nil && len(result0) == 0
+//@ ensures[C18] len(buf) >= 16 ==> result1 == nil && len(result0) == 1
+//@ ensures[C18] len(buf) >= 16 ==> result0[0].Header.Len == le32(buf, 0) && result0[0].Header.Type == le16(buf, 4) && result0[0].Header.Flags == le16(buf, 6) && result0[0].Header.Seq == le32(buf, 8) && result0[0].Header.Pid == le32(buf, 12)
+//@ ensures[C18] len(buf) >= 16 ==> base(result0[0].Data) == base(buf) && lo(result0[0].Data) == lo(buf) + 16 && len(result0[0].Data) == len(buf) - 16
